@@ -137,6 +137,13 @@ pub fn inputs_of_base(plan: &Plan, b: u64, corpus: &[(String, Vec<u8>)]) -> Vec<
             out.push(Input { operator: "wellformed:big".into(), label: format!("{}: well-formed sprite #{} with large dimensions", base.name, k), bytes });
         }
     }
+    if plan.mode == Mode::Mem && b < 16 && base.spec.is_some() {
+        if let Some(op) = hostile::MODEL_OPS.iter().position(|o| *o == "big_honest_cel") {
+            if let Some(i) = hostile::model_input(&base, op, &mut rng, 0) {
+                out.push(i);
+            }
+        }
+    }
     match plan.mode {
         Mode::Mem => {
             // every size / count / index field inflated one at a time to each larger boundary value
@@ -163,6 +170,13 @@ pub fn inputs_of_base(plan: &Plan, b: u64, corpus: &[(String, Vec<u8>)]) -> Vec<
                 };
                 if hostile::MODEL_OPS[op] == "nested_groups" && (b % 8 != 0 || r > 0) {
                     continue; // expensive input: one in eight bases
+                }
+                if hostile::MODEL_OPS[op] == "big_honest_cel" {
+                    // memory monitor only, in the first base of every worker stripe, BEFORE that base's other inputs
+                    continue;
+                }
+                if hostile::MODEL_OPS[op] == "many_links_to_big_tilemap" && (r > 0 || b % 16 != 7 || plan.mode == Mode::Walk || plan.mode == Mode::Digest) {
+                    continue; // a 4-16 M tile map: one base in sixteen, loading only (memory / totality)
                 }
                 if hostile::MODEL_OPS[op] == "palette_colliding_keys" && (r > 0 || b != 5 || plan.mode == Mode::Mem) {
                     continue; // a 16-megapixel cel: once per run
